@@ -248,30 +248,38 @@ EXTRA = {
            '(incl. after refused parses); every bytes/text member is filled with structured-looking contents (sync bytes, framed '
            'messages, NULs, non-UTF-8) crossed with defined and unrecognised raw values of every enumeration field.',
     'C02': 'Every encoding is also decoded told the C++ struct\'s MESSAGE_VERSION (three unpack call forms, the stream decoder, '
-           'MixedLogReader sequentially and by index entry).',
+           'MixedLogReader sequentially and by index entry). '
+           'The caller\'s buffer must keep its length when a message is packed into it at an offset.',
     'C04': 'Data is handed over in nine forms (bytes, fresh / re-used / wiped bytearray, memoryviews, a recv_into-style view) with the '
            'caller\'s objects compared after every call; add_callback histories while the decoder is in use (typed and catch-all, '
-           'between calls and from inside a callback; theorem C04_late_observer).',
+           'between calls and from inside a callback; theorem C04_late_observer). '
+           'Streams in which a message is followed by near-copies of itself (same header, changed payload; exact copy; cut copy).',
     'C08': 'Messages of every registered class in every P1-time configuration; the time column is also judged against the wire '
            'bytes by a hand-written per-type table.',
     'C09': 'Every library writer of .p1i files (reader, fast indexer, FileIndexBuilder, extraction in four output forms, locate_log, '
            'load+save) is run on captures with junk between messages; the written index is compared with a fresh one and every '
-           'read through it with the index-ignored read (fractional seconds across [0,1)).',
+           'read through it with the index-ignored read (fractional seconds across [0,1)). '
+           'Histories of a log still being written: indexed while its last message lacks 1-3 (.. 25) bytes, opened again when they arrive.',
     'C10': 'Generated logs draw their base P1 time from magnitudes 0 .. 2^24 .. GPS-like .. 2^31 .. 2^32-2 with whole-second bounds '
-           'around message times.',
+           'around message times. '
+           'Criteria objects (TimeRange, type list, source list) built once and used for several logs, via the constructor and via filter_in_place().',
     'C11': 'Every filter operation also in its replacing form (clear_existing=True = clear-then-filter); histories applying one '
-           'type set to different sub-indexes of pattern logs that share first entry, last entry and size.',
+           'type set to different sub-indexes of pattern logs that share first entry, last entry and size. '
+           'Stepped index slices index[i:j:k] (Op.filterStride in model, specification and simulation proof); C11_forward_only: between rewinds / seeks the position never moves back, so no message is returned twice.',
     'C12': 'Histories "across-types read of T / reads of strict subsets of T with other arguments / the first read again".',
-    'C15': 'Boundary sizes: union / common / per-type epoch counts at 2^k-1 .. 2^k+2 (k = 7, 8; thorough also 15, 16).',
+    'C15': 'Boundary sizes: union / common / per-type epoch counts at 2^k-1 .. 2^k+2 (k = 7, 8; thorough also 15, 16). '
+           'An inserted entry owns its p1_time object (no sharing with any other entry of the result).',
     'C03': 'Fresh-interpreter sweeps in which an application first defines and uses its own enum / mask classes under the names of '
            'all protocol enumerations (same and different sizes, modules, qualnames) before the protocol enumerations are asked.',
     'C05': 'Results are caller-owned values: every returned header / payload / raw-bytes object is snapshotted at return, re-read '
            'after every later call, and may not be handed out twice; chunk ends at, before and after every message end under '
-           'every return_bytes / return_offset setting; messages of 4096 / 65536 bytes +- 1.',
+           'every return_bytes / return_offset setting; messages of 4096 / 65536 bytes +- 1. '
+           'C05_calls_compose: a session of on_data calls composes from any decoder state.',
     'C07': 'The Python decoder is given 60 s on the 16 MB cases and the question is otherwise repeated at small scale.',
     'C14': 'Long runs of one framer object (70 000 .. 2^17 + 70 000 frames generated in the harness from a seed) reported around '
            '2^8, 2^15, 2^16, 2^17, with and without Reset(), judged window by window by the Lean scan.',
     'C18': 'Inputs with messages of every registered class in every P1-time configuration, each extracted with an index request.',
+    'C19': 'Histories pass the caller\'s own argument array again: as it is, refilled in place, after the caller edited the earlier result.',
 }
 for _k, _v in EXTRA.items():
     if _v not in CHECKS[_k]['text']:
